@@ -40,9 +40,10 @@ const (
 	OpAddFit // Bool: exact args[0]+args[1] representable in their type
 	OpSubFit
 	OpMulFit
+	OpUF // uninterpreted function t.name over args (abstraction of a known concrete function, see ufImpl)
 )
 
-var opNames = [...]string{"const", "var", "add", "sub", "mul", "div", "rem", "neg", "and", "or", "xor", "compl", "shl", "shr", "conv", "lt", "le", "eq", "not", "band", "bor", "ite", "addfit", "subfit", "mulfit"}
+var opNames = [...]string{"const", "var", "add", "sub", "mul", "div", "rem", "neg", "and", "or", "xor", "compl", "shl", "shr", "conv", "lt", "le", "eq", "not", "band", "bor", "ite", "addfit", "subfit", "mulfit", "uf"}
 
 type Term struct {
 	op     Op
@@ -374,6 +375,30 @@ func b2u(b bool) uint64 {
 
 // ---- constructors with light simplification ----
 
+// ufImpl gives the concrete meaning of each abstracted function (used for model
+// evaluation and constant folding; the solver only sees an uninterpreted symbol).
+var ufImpl = map[string]func(a []uint64) uint64{
+	"fnv64":  func(a []uint64) uint64 { return (a[0] * 1099511628211) ^ (a[1] & 0xff) },
+	"fnv64a": func(a []uint64) uint64 { return (a[0] ^ (a[1] & 0xff)) * 1099511628211 },
+}
+
+func mkUF(name string, w uint8, signed bool, args ...*Term) *Term {
+	allc := true
+	for _, a := range args {
+		if a.op != OpConst {
+			allc = false
+		}
+	}
+	if allc {
+		av := make([]uint64, len(args))
+		for i, a := range args {
+			av[i] = a.c
+		}
+		return mkConst(ufImpl[name](av), w, signed)
+	}
+	return &Term{op: OpUF, w: w, signed: signed, args: args, name: name}
+}
+
 func mk(op Op, w uint8, signed bool, args ...*Term) *Term {
 	allc := true
 	for _, a := range args {
@@ -590,6 +615,11 @@ func evalTerm(t *Term, model map[string]uint64, memo map[*Term]uint64) uint64 {
 	}
 	for i, a := range t.args {
 		av[i] = evalTerm(a, model, memo)
+	}
+	if t.op == OpUF {
+		r := ufImpl[t.name](av) & maskB(t.w)
+		memo[t] = r
+		return r
 	}
 	r := evalOp(t.op, t.w, t.signed, av, t.args) & maskB(t.w)
 	memo[t] = r
